@@ -20,7 +20,7 @@ def configs(tier):
 
 
 def dfs_configs(tier):
-    base = [(5, 2, 2), (5, 1, 3), (4, 2, 4), (7, 1, 2)]
+    base = [(5, 2, 2), (5, 1, 3), (4, 2, 4), (7, 1, 2), (23, 2, 2), (140, 2, 2)]      # 23/2: twelve chunk files (a two-digit chunk number); 140/2: seventy
     if tier != 'quick':
         base += [(5, 3, 1), (6, 2, 4), (7, 2, 3), (9, 1, 4), (40, 9, 7), (40, 9, 40), (40, 1, 42), (12, 9, 5)]
     return base
@@ -73,7 +73,9 @@ class ArraySystem:
         self.n, self.size, self.per = n, size, per
         self.Z = b'\x00' * size
         self.X = b'\x00' * (size - 1) + b'\x07'
-        self.Y = b'\xa5' * size
+        # the full-size value: a5..a5, or (even items_per_file, size >= 2) 07 00..00 - a value that ENDS in zero bytes, so that the raw
+        # bytes of two neighbouring items contain the all-zero item at a misaligned offset
+        self.Y = b'\xa5' * size if (size < 2 or per % 2) else b'\x07' + b'\x00' * (size - 1)
         self.vals = {
             'empty': b'', 'one': b'\x07', 'full': self.Y, 'over': b'\x01' * (size + 1), 'overz': b'\x00' + self.Y,
             'bytearray': bytearray(self.Y), 'str': 'a' * size, 'int': 7, 'none': None, 'zero': self.Z,
@@ -421,7 +423,9 @@ def run_unit(p, tier, seed):
         system.dfs_any_event = True
         depth = 3 if tier == 'quick' else 4
         if n >= 12:
-            depth = 3
+            depth = 3 if tier != 'quick' else 2
+        if n >= 100:
+            depth = 2 if tier != 'quick' else 1
         st = xstate.dfs_all(system, system._alphabet, depth, on_problem)
         r['transitions'] += st.transitions
         r['evaluations'] += st.histories
